@@ -71,6 +71,8 @@ fn gen(g: &mut G, thorough: bool) -> Plan {
         6 => *g.pick(&[400u16, 403, 404, 407, 429]),
         _ => *g.pick(&[500u16, 502, 503, 599]),
     };
+    // (no draw) status codes run to 999: whatever is not 2xx refuses the tunnel
+    let status = if status == 599 { [599u16, 600, 799, 999][(origin_port.is_some() as usize) * 2 + proxy_https as usize] } else { status };
     let success = (200..300).contains(&status);
     // (no draw) proxies answer CONNECT in every dialect: HTTP/1.0, no reason phrase, the classic phrase
     let mut head = match status % 4 {
